@@ -66,6 +66,16 @@ class Reserved(str):
   def __repr__(self):
     return f'Reserved({super().__repr__()})'
 
+  def __eq__(self, other) -> bool:
+    # An ordinary str key that spells the same name is not a reserved key.
+    return isinstance(other, Reserved) and super().__eq__(other)
+
+  def __ne__(self, other) -> bool:
+    return not self == other
+
+  def __hash__(self) -> int:
+    return hash((Reserved, super().__hash__()))
+
   def __iter__(self) -> Iterator[str]:
     # Avoids iterate over the str itself.
     yield self
